@@ -86,6 +86,9 @@ FAMILIES = {
     "hard_disks": {"base": "harness:hard_disks", "n": (2, 9), "cost": 1, "lattice": True, "chain_cap": True},
     "hdd": {"base": "harness:hard_disk_dipoles", "n": (9, 9), "cost": 2, "lattice": True, "fixed_n": True,
             "chain_cap": True},
+    "cuboid_cells": {"base": "harness:cuboid_hard_cells", "n": (4, 16), "cost": 1, "lattice": True,
+                     "chain_cap": True, "cuboid": True},
+    "cuboid_soft": {"base": "harness:cuboid_soft", "n": (2, 8), "cost": 1, "chain_cap": True, "cuboid": True},
     "hdd_cells": {"base": "harness:hard_disk_dipoles_cells", "n": (9, 9), "cost": 2, "lattice": True,
                   "fixed_n": True, "chain_cap": True},
 }
@@ -112,6 +115,21 @@ def generate(rng, family, package_dir, events=2000, vary=True, shipped_n=False):
         n = rng.randint(lo, hi)
     if n != int(sections[input_section]["number_of_root_nodes"]):
         scale_units(sections, package_dir, n, set_out, input_section)
+    if vary and spec.get("cuboid"):
+        dim = rng.choice([2, 3]) if "cells" in family else 3
+        lengths = [rng.choice([1.0, 1.5, 2.0, 3.0]) for _ in range(dim)]
+        set_out.setdefault("HypercuboidSetting", {}).update(
+            {"system_lengths": ", ".join(repr(x) for x in lengths), "dimension": str(dim)})
+        if "CuboidPeriodicCells" in sections:
+            # cell sides of at least 0.22 (sphere diameter 0.1, jitter), at least 3 cells per side
+            cells = [max(3, min(rng.randint(3, 7), int(length / 0.22))) for length in lengths]
+            set_out.setdefault("CuboidPeriodicCells", {})["cells_per_side"] = ", ".join(map(str, cells))
+            set_out.setdefault("SingleActiveCellOccupancy", {})["maximum_number_occupants"] = str(
+                rng.choice([1, 1, 2, -1]))
+        chain = 0.2 * min(lengths)
+        for section in find_section_with(sections, "chain_time"):
+            sections[section]["chain_time"] = repr(chain)
+            set_out.setdefault(section, {})["chain_time"] = repr(chain)
     if vary:
         # scheduler
         if rng.random() < 0.5:
@@ -135,7 +153,8 @@ def generate(rng, family, package_dir, events=2000, vary=True, shipped_n=False):
         # initial active unit and direction
         start = sections.get("InitialChainStartOfRunEventHandler")
         if start is not None:
-            dim = int(sections.get("HypercubicSetting", {}).get("dimension", 3))
+            dim = int(set_out.get("HypercuboidSetting", {}).get("dimension") or sections.get(
+                "HypercubicSetting", sections.get("HypercuboidSetting", {})).get("dimension", 3))
             set_out.setdefault("InitialChainStartOfRunEventHandler", {})["initial_direction_of_motion"] = str(
                 rng.randrange(dim))
             ident = scenario_module.split_list(start["initial_active_identifier"])
